@@ -140,12 +140,14 @@ fn printable() -> u8 {
 /// Skeleton `c1 ESC [ 4 e m c2`: two runs, the second with a 16-colour background (the
 /// parser costs the solver ~40 s of symbolic execution per input byte, so the skeleton is as
 /// short as two differently coloured runs allow).  Concrete structure, symbolic text / colour
-/// digit / console script.
+/// digit / console script; concrete text.
 const LEN: usize = 7;
 fn skeleton() -> ([u8; LEN], Option<u8>, Option<u8>) {
     let e: u8 = kani::any();
     kani::assume(e < 8);
-    let buf = [printable(), 0x1B, b'[', b'4', b'0' + e, b'm', printable()];
+    // the visible text is concrete: a symbolic character pushed into the extractor's String
+    // (UTF-8 encoding, reallocation) costs the solver far more than the write loop under test
+    let buf = [b'A', 0x1B, b'[', b'4', b'0' + e, b'm', b'B'];
     (buf, None, Some(e))
 }
 
